@@ -19,17 +19,20 @@ Lemma inv_deliver0 : forall c c' t th th' d,
   Inv c -> nth_error (threads c) t = Some th ->
   threads c' = upd t th' (threads c) ->
   mu c' = None -> caller c' = caller c -> sig_open c' = sig_open c -> result c' = result c ->
-  events c' = EDeliver t d :: events c ->
+  events c' = EDeliver t d :: events c -> done_open c' = done_open c ->
   clients c' = clients c -> slots c' = slots c -> proxies c' = proxies c ->
   (d = DCaller -> caller c = true) -> (d <> DCaller -> sig_open c = false) ->
   tinv c' t th' -> (in_precommit th' = true -> in_precommit th = true) ->
   Inv c'.
 Proof.
-  intros c c' t th th' d HI Hth Hup Hmu Hcal Hsig Hres Hev Hcl Hsl Hpx Hd1 Hd2 HT Hpre.
+  intros c c' t th th' d HI Hth Hup Hmu Hcal Hsig Hres Hev Hdone Hcl Hsl Hpx Hd1 Hd2 HT Hpre.
   apply (inv_deliver c c' t th th' d); auto; try rewrite Hpx; try apply HI.
   - apply px_preserved_refl. exact Hpx.
   - reflexivity.
 Qed.
+
+Lemma sig_done_open : forall c, Inv c -> sig_open c = true -> done_open c = true.
+Proof. intros c HI Hs. destruct (done_open c) eqn:E; auto. pose proof (I_done c HI E). congruence. Qed.
 
 Lemma resolve_start_inv : forall c t th c',
   Inv c -> nth_error (threads c) t = Some th -> t_pc th = PStart -> is_res_op (t_op th) = true ->
@@ -43,7 +46,7 @@ Proof.
   destruct (caller c) eqn:Hc; simpl in Hs.
   2:{ inv_some Hs. apply (inv_frame0 c _ t th (finish th OPanic)); simpl; auto; try solve [noprec0].
       unfold tinv; simpl. destruct (t_op th); try discriminate; auto. }
-  pose proof (I_caller_sig c HI Hc) as Hso.
+  pose proof (I_caller_sig c HI Hc) as Hso. pose proof (sig_done_open c HI Hso) as Hdo.
   destruct (0 <? ongoing c).
   - inv_some Hs.
     apply (inv_resolve c _ t th (goto th PStopWait) [EBegin t] (op_res (t_op th))); simpl; auto.
@@ -79,13 +82,14 @@ Proof.
     by (destruct (t_op th); try tauto; exact HT).
   destruct HT' as [Hc [Hso Hb]].
   assert (Hpre : in_precommit th = true) by (unfold in_precommit; rewrite Hop, Hpc; reflexivity).
+  pose proof (sig_done_open c HI Hso) as Hdo.
   destruct (iter_order (op_ord (t_op th)) (clients c)) eqn:Hord; inv_some Hs.
-  - apply (inv_resolve c _ t th (finish th ORet) [EResolved t] (op_res (t_op th))); simpl; auto.
+  - apply (inv_resolve c _ t th (goto th PClose) [EResolved t] (op_res (t_op th))); simpl; auto.
     + intros t0 d [H|[]]; discriminate.
     + repeat split; try apply HI; exact I.
     + rewrite Hc. reflexivity.
     + right. repeat split; auto. unfold in_precommit; simpl. apply andb_false_r.
-    + unfold tinv; simpl. destruct (t_op th); try discriminate; right; auto 10.
+    + unfold tinv; simpl. destruct (t_op th); try discriminate; auto 10.
   - apply (inv_resolve c _ t th (goto th (PFul (n :: l))) [EResolved t] (op_res (t_op th))); simpl; auto.
     + intros t0 d [H|[]]; discriminate.
     + repeat split; try apply HI; exact I.
@@ -173,10 +177,10 @@ Proof.
     + apply call_done_noprec.
   - (* ORelease *)
     destruct (relflag c).
-    + inv_some Hs. apply (inv_frame0 c _ t th (finish th ORet)); simpl; auto; try solve [noprec0].
+    + inv_some Hs. apply (inv_frame0 c _ t th (finish th ONoop)); simpl; auto; try solve [noprec0].
       unfold tinv. simpl. rewrite Hop. exact I.
     + destruct (0 <? crefs c - 1); inv_some Hs.
-      * apply (inv_frame c _ t th (finish th ORet)); simpl; auto; try solve [noprec0]; try useHI HI.
+      * apply (inv_frame c _ t th (finish th ONoop)); simpl; auto; try solve [noprec0]; try useHI HI.
         -- intros Hc. congruence.
         -- apply px_preserved_refl. reflexivity.
         -- unfold tinv. simpl. rewrite Hop. exact I.
@@ -230,10 +234,11 @@ Proof.
       * intros x px Hx. exists px. simpl. split; auto. rewrite nth_error_app1; auto. apply nth_error_Some. congruence.
       * unfold tinv. simpl. rewrite Hop. eexists. split; [reflexivity|]. simpl. exists np. split; auto.
         rewrite nth_error_app2, Nat.sub_diag by auto. reflexivity.
-  - destruct (sig_open c) eqn:Hso; inv_some Hs.
+  - destruct (done_open c) eqn:Hdo; inv_some Hs.
     + apply (inv_frame0 c _ t th (goto th PWaitRes)); simpl; auto; try solve [noprec0].
       unfold tinv. simpl. rewrite Hop. exact I.
-    + apply (inv_frame c _ t th (finish th (OHandle (HDirect (res_dest (cur_res c) p))))); simpl; auto;
+    + pose proof (I_done c HI Hdo) as Hso.
+      apply (inv_frame c _ t th (finish th (OHandle (HDirect (res_dest (cur_res c) p))))); simpl; auto;
         try solve [noprec0]; try useHI HI.
       * intros Hc'. congruence.
       * intros s0 d [He|Hin]; [inversion He; subst; split; [auto|apply res_dest_not_caller]|exact (I_slots c HI s0 d Hin)].
@@ -297,14 +302,19 @@ Proof.
   pose proof (I_mu c HI) as Hmu.
   pose proof (I_threads c HI t th Hth) as HT. unfold tinv in HT. rewrite Hpc in HT.
   assert (HT' : is_res_op (t_op th) = true /\ In (EBegin t) (events c) /\ In (EResolved t) (events c) /\
-                result c = Some (op_res (t_op th)) /\ sig_open c = false).
+                result c = Some (op_res (t_op th)) /\ sig_open c = false /\ done_open c = true).
   { destruct (t_op th); try tauto; simpl; tauto. }
-  destruct HT' as [Hop [Hb [Hr [Hres Hso]]]].
+  destruct HT' as [Hop [Hb [Hr [Hres [Hso Hdo]]]]].
+  assert (Hcf : caller c = false).
+  { destruct (caller c) eqn:E; auto. pose proof (I_caller_sig c HI E). congruence. }
   unfold sec_fulfil_proxy in Hs. simpl in Hs.
   destruct rest as [|x rest'].
-  - inv_some Hs. apply (inv_frame0 c _ t th (finish th ORet)); simpl; auto; try solve [noprec0].
-    unfold tinv. simpl. destruct (t_op th); try discriminate; right; auto 10.
-  - assert (Hnd : forall r, res_dest r (px_path (get_px c x)) <> DCaller) by (intros; apply res_dest_not_caller).
+  - inv_some Hs. apply (inv_frame0 c _ t th (goto th PClose)); simpl; auto; try solve [noprec0];
+      try solve [unfold tinv; simpl; destruct (t_op th); try discriminate; auto 10].
+  - destruct (negb (res_alive c)).
+    { inv_some Hs. apply (inv_frame0 c _ t th (finish th OPanic)); simpl; auto; try solve [noprec0];
+        try solve [unfold tinv; simpl; destruct (t_op th); try discriminate; auto]. }
+    assert (Hnd : forall r, res_dest r (px_path (get_px c x)) <> DCaller) by (intros; apply res_dest_not_caller).
     destruct (px_refs (get_px c x) =? 0); inv_some Hs.
     + eapply (inv_frame_px c _ t th (goto th (PFul rest')) x); simpl; eauto; try solve [noprec0];
         try solve [intros E; inversion E as [E']; exact (Hnd _ E')];
@@ -312,6 +322,24 @@ Proof.
     + eapply (inv_frame_px c _ t th (goto th (PFulWait x rest')) x); simpl; eauto; try solve [noprec0];
         try solve [intros E; inversion E as [E']; exact (Hnd _ E')];
         try solve [unfold tinv; simpl; destruct (t_op th); try discriminate; auto 10].
+Qed.
+
+Lemma close_inv : forall c t th c',
+  Inv c -> nth_error (threads c) t = Some th -> t_pc th = PClose ->
+  sec_close c t th = Some c' -> Inv c'.
+Proof.
+  intros c t th c' HI Hth Hpc Hs.
+  pose proof (I_mu c HI) as Hmu.
+  pose proof (I_threads c HI t th Hth) as HT. unfold tinv in HT. rewrite Hpc in HT.
+  assert (HT' : is_res_op (t_op th) = true /\ In (EBegin t) (events c) /\ In (EResolved t) (events c) /\
+                result c = Some (op_res (t_op th)) /\ sig_open c = false /\ done_open c = true).
+  { destruct (t_op th); try tauto; simpl; tauto. }
+  destruct HT' as [Hop [Hb [Hr [Hres [Hso Hdo]]]]].
+  unfold sec_close, mu_free in Hs. rewrite Hmu in Hs. simpl in Hs. inv_some Hs.
+  apply (inv_close c _ t th (finish th ORet)); simpl; auto.
+  - unfold in_postk. rewrite Hop, Hpc. reflexivity.
+  - unfold tinv. simpl. destruct (t_op th); try discriminate; right; auto 10.
+  - unfold in_precommit. simpl. apply andb_false_r.
 Qed.
 
 Lemma release_proxy_inv : forall c t th c' rest,
@@ -362,15 +390,19 @@ Proof.
     + (* OClient *) eapply client_inv; eauto.
     + (* OCall *) eapply call_start_inv; eauto.
     + (* ORelease *)
-      destruct (sig_open c) eqn:Hso; [discriminate|]. inv_some Hs.
+      destruct (done_open c) eqn:Hdo; [discriminate|]. pose proof (I_done c HI Hdo) as Hso. inv_some Hs.
       apply (inv_frame0 c _ t th (goto th PAfterRes)); simpl; auto; [|noprec Hop].
       unfold tinv; simpl. rewrite Hop. simpl. auto.
     + (* OWait *)
-      destruct (sig_open c) eqn:Hso; [discriminate|]. inv_some Hs.
+      destruct (done_open c) eqn:Hdo; [discriminate|]. pose proof (I_done c HI Hdo) as Hso. inv_some Hs.
       apply (inv_frame0 c _ t th (goto th PAfterRes)); simpl; auto; [|noprec Hop].
       unfold tinv; simpl. rewrite Hop. simpl. auto.
     + (* OUngate *)
       inv_some Hs.
+      apply (inv_frame0 c _ t th (finish th ORet)); simpl; auto; [|noprec Hop].
+      unfold tinv; simpl. rewrite Hop. exact I.
+    + (* OConsume *)
+      destruct (done_open c) eqn:Hdo; [discriminate|]. inv_some Hs.
       apply (inv_frame0 c _ t th (finish th ORet)); simpl; auto; [|noprec Hop].
       unfold tinv; simpl. rewrite Hop. exact I.
   - (* PCallLock *) eapply call_lock_inv; eauto.
@@ -385,7 +417,13 @@ Proof.
       * destruct HT as [H1 [H2 [H3 H4]]]. rewrite H3. simpl. rewrite Hop. simpl in *. tauto.
       * destruct (t_via th); simpl; rewrite Hop; auto.
   - (* PWaitRes *)
-    destruct (sig_open c) eqn:Hso; [discriminate|]. inv_some Hs.
+    assert (Hboth : sig_open c = false /\ (match t_op th with OClient _ _ => done_open c = false | _ => True end)).
+    { destruct (t_op th); try (destruct (sig_open c); [discriminate|auto]);
+        destruct (done_open c) eqn:Hdo; [discriminate|]; split; [exact (I_done c HI Hdo)|reflexivity]. }
+    destruct Hboth as [Hso Hcl].
+    assert (Hs' : Some (set_thread c t (goto th PAfterRes)) = Some c').
+    { destruct (t_op th); try (rewrite Hso in Hs; exact Hs); rewrite Hcl in Hs; exact Hs. }
+    clear Hs. inv_some Hs'.
     apply (inv_frame0 c _ t th (goto th PAfterRes)); simpl; auto; try solve [noprec0];
       try solve [unfold tinv; simpl; destruct (t_op th); auto; try contradiction; simpl in *; tauto].
   - (* PAfterRes *) eapply after_res_inv; eauto.
@@ -413,6 +451,7 @@ Proof.
       try solve [unfold in_precommit; simpl; rewrite Hpc; simpl; auto];
       try solve [unfold tinv; simpl; destruct (t_op th); auto; try contradiction; simpl in *; tauto].
   - (* PCommit *) eapply commit_inv; eauto.
+  - (* PClose *) eapply close_inv; eauto.
   - (* PRel *) eapply release_proxy_inv; eauto.
   - (* PRelWait *)
     destruct (px_done (get_px c x)); [|discriminate]. inv_some Hs.
